@@ -119,7 +119,7 @@ pub fn do_offset_history(offset_value: u32, lit_len: u32, scratch: &mut [u32; 3]
         }
     } else {
         match offset_value {
-            1..=2 => scratch[offset_value as usize - 1],
+            1..=2 => scratch[offset_value as usize],
             // A malformed dictionary can seed scratch[0] with 0; saturate so this
             // resolves to 0 (rejected upstream as ZeroOffset) instead of
             // underflowing. See #115.
